@@ -1,8 +1,11 @@
 (* CorrC01.v — correspondence checker for C01 (query exactness). *)
-From Pyro Require Export Corr.StorCorr.
+From Pyro Require Export Corr.StorCorr Corr.FbTree.
 Local Open Scope Z_scope.
 
-Record case := { c_ops : list hop }.
+(* c_http: the history went through POST /ingest and GET /render?format=json on the real server; the tree of
+   every query is then read back from the flamebearer ([tree_of_fb]), i.e. known up to zero-total frames, so
+   the model comparison is on per-stack self values (den) instead of structural *)
+Record case := { c_ops : list hop; c_http : bool }.
 
 Definition upl := (sid * Z * Z * list (bytes * N) * meta)%type.
 Definition u_sid (x : upl) : sid := let '(s, _, _, _, _) := x in s.
@@ -55,4 +58,7 @@ Fixpoint spec_gets (rev_prefix rest : list hop) : list verdict :=
   end.
 
 Definition check_case (c : case) : verdict :=
-  combine_verdicts (spec_gets [] (c_ops c) ++ [model_verdict true false (c_ops c)]).
+  combine_verdicts (spec_gets [] (c_ops c) ++
+    [if c_http c
+     then match run_cmp false true false st_init (c_ops c) with None => Ok | Some w => ModelDiffers w end
+     else model_verdict true false (c_ops c)]).
